@@ -18,7 +18,7 @@ SHIFT = {"GaleShapley.scf": "all", "Irving.scf": "all", "DoubleLambdaTSF": "all"
 
 class C13(Prop):
     layouts = True
-    translators = ['scoring', 'randscoring', 'gsres', 'gshosp']   # scoring rules, break_tie, BaseRandomizedScoring and both Gale-Shapley loops regenerated from the source on every run
+    translators = ['scoring', 'randscoring', 'gsres', 'gshosp', 'elicitvoting']   # scoring rules, break_tie, BaseRandomizedScoring and both Gale-Shapley loops regenerated from the source on every run
     pid = "C13"
     sources = ["socialchoicekit/utils.py", "socialchoicekit/deterministic_scoring.py", "socialchoicekit/deterministic_tournament.py",
                "socialchoicekit/randomized_scoring.py", "socialchoicekit/deterministic_multiround.py", "socialchoicekit/deterministic_matching.py"]
@@ -85,6 +85,19 @@ class C13(Prop):
             R = GS.rand_profile(rng, n, m, pn); H = GS.rand_profile(rng, m, n, pn)
             if not (GS.valid_profile(R) and GS.valid_profile(H)): continue
             yield dict(entry="GaleShapley.scf", family="gs", rule="GS", R=R, H=H, c=[rng.randint(1, 2) for _ in range(m)], ro=bool(i % 2))
+        # lambda-PRV / k-ARV (their own scf): constant utilities, zero included - every alternative is then maximal whenever all scores coincide
+        from . import elicit_common as EC
+        for i in range(40 if tier == "quick" else 600):
+            n = rng.randint(1, 4); m = rng.randint(1, 5); erule = ["PRV", "KARV"][i % 2]
+            cst = [0.0, 0.0, 1.0, 0.5][i % 4]
+            P = [rng.sample(range(1, m + 1), m) for _ in range(n)]
+            k = rng.randint(1, m) if erule == "PRV" else rng.randint(1, min(3, m))
+            if i % 8 >= 6:      # one voter with positive utilities next to all-zero voters
+                Vv = [[0.0] * m for _ in range(n)]; vals = sorted([rng.random() for _ in range(m)], reverse=True); Vv[0] = [vals[r - 1] for r in P[0]]
+            else:
+                Vv = [[cst] * m for _ in range(n)]
+            yield dict(entry={"PRV": "LambdaPRV.scf", "KARV": "KARV.scf"}[erule], family="elicit_constant", rule="EV", erule=erule, P=P, V=Vv, k=k, tb=["accept", "first", "random"][i % 3],
+                       want_out=True, seed=i, eclass=["lambda", "profile"][i % 2], ezi=True)
         # "for every rule in the library": the matching, allocation and elicitation rule families, run under both conventions
         from . import c20 as C20M
         for c in C20M.PROP.cases(rng, tier):
@@ -102,6 +115,11 @@ class C13(Prop):
                 finally:
                     C20M.ZI = True
             return dict(status=("ok" if outs[False]["status"] == outs[True]["status"] == "ok" else "err"), one=outs[False], zero=outs[True])
+        if case["rule"] == "EV":
+            from . import elicit_common as EC
+            np.random.seed(case["seed"]); a = EC.run_rule(dict(case, rule=case["erule"], zi=False))
+            np.random.seed(case["seed"]); b = EC.run_rule(dict(case, rule=case["erule"], zi=True))
+            return dict(status=("ok" if a["status"] == b["status"] == "ok" else "err"), one=a, zero=b)
         if case["rule"] == "GS":
             a = GS.run_gs(dict(case, zi=False)); b = GS.run_gs(dict(case, zi=True))
             return dict(status=("ok" if a["status"] == b["status"] == "ok" else "err"), one=a, zero=b)
@@ -125,6 +143,21 @@ class C13(Prop):
             want = [rb[0], up(rb[1])] if SHIFT[case["name"]] == "second" else up(rb)
             if ra != want:
                 return ("index_shift", "%s: one-indexed output %r is not the zero-indexed output %r shifted by one" % (case["name"], ra, rb))
+            return None
+        if case["rule"] == "EV":
+            if obs["status"] != "ok":
+                return ("no_result", "%s failed on a valid profile: %s %s / %s %s" % (case["entry"], a["status"], a.get("err"), b["status"], b.get("err")))
+            vt = b["vt"]; sc = [float(x) for x in vt] if case["erule"] == "PRV" else [float(sum(row[j] for row in vt)) for j in range(len(vt[0]))]
+            mx = max(sc); maxi = [j for j in range(len(sc)) if sc[j] == mx]
+            oa, ob = a["out"], b["out"]
+            if case["tb"] == "accept":
+                if ob != maxi: return ("accept_contract", "'accept' returned %r, maximisers in increasing order are %r (scores %r)" % (ob, maxi, sc))
+                if oa != [x + 1 for x in ob]: return ("index_shift", "one-indexed output %r is not zero-indexed output %r plus one" % (oa, ob))
+            else:
+                if isinstance(ob, list) or isinstance(oa, list): return ("single_winner_expected", "%r / %r" % (oa, ob))
+                if case["tb"] == "first" and ob != maxi[0]: return ("first_contract", "'first' returned %r, smallest maximiser is %r" % (ob, maxi[0]))
+                if ob not in maxi: return ("random_contract", "returned %r, not among maximisers %r" % (ob, maxi))
+                if oa != ob + 1: return ("index_shift", "one-indexed output %r is not zero-indexed output %r plus one" % (oa, ob))
             return None
         if case["rule"] == "GS":
             if obs["status"] != "ok":
@@ -181,7 +214,7 @@ class C13(Prop):
         return None
 
     def coq(self, case, obs):
-        if case["rule"] in ("GS", "STV", "SHIFT") or obs["status"] != "ok":
+        if case["rule"] in ("GS", "STV", "SHIFT", "EV") or obs["status"] != "ok":
             return None
         b = obs["zero"]; sc = b["score"]
         if case["rule"] in RAND:
@@ -195,7 +228,7 @@ class C13(Prop):
         return ("scf", ct(V.cQl(sc), cz(1), cn(V.TBS.index(case["tb"])), "true", cn(pick), o))
 
     def nontrivial(self, case, obs):
-        if case["rule"] == "SHIFT":
+        if case["rule"] in ("SHIFT", "EV"):
             return obs["status"] == "ok"
         if obs["status"] != "ok" or case["rule"] in ("GS", "STV"):
             return obs["status"] == "ok" and case["rule"] == "GS" and len(obs["zero"]["pairs"]) > 0
